@@ -254,11 +254,12 @@ func checkC15(c *Check) {
 	c.Explain = "C15: (1) gate chain of timestamp.Timestamp (validator, aggregation and context helper opaque): the token bytes are returned only after, in this order, NewRequest ok, Timestamper.Timestamp ok, SignedToken ok, token.Verify(ctx, {Roots: req.TSARootCAs}) ok, ValidateTimestampingCertChain(the chain Verify returned) ok, and - unless no revocation validator is given - ValidateContext(ctx, {CertChain: that chain}) ok and the aggregation ok; every context argument is req.Context(); the bytes returned are resp.TimestampToken.FullBytes of the same response. (2) Aggregation: nil only for non-empty results of the chain's length in which every element is OK or NonRevokable (recognised count-all fold), Revoked returns an error at once. (3) Envelope side: timestamp.Timestamp is called only from the two format-level Sign paths, under scheme == notary.x509 and a non-nil Timestamper, with Content = the signature of the message being emitted (after the signing call succeeded) and HashAlgorithm derived from the signer's key spec through the hash tables; the token is stored into the message only from result 0 on the err == nil edge; the Timestamper interface is invoked nowhere else. (4) Every failure of the timestamp block is a TimestampError and precedes the commit of the inner message. CMS verification, nonce and imprint matching are tspclient's."
 	c.Assume = append(c.Assume, "tspclient-go HTTP timestamper validates status granted, nonce and message imprint; SignedToken.Verify refuses a nil root pool and returns the verified chain (v1.0.0)")
 	ctxFn := "(*ncg/signature.SignRequest).Context"
-	aggSites := c.P.directCallees(c.P.fn(tsFn))
+	// the aggregation: the function below timestamp.Timestamp that takes the validator's results
 	agg := ""
-	for _, n := range aggSites {
-		if n != tsVal && n != ctxFn {
-			agg = n
+	for _, fs := range c.callTree([]string{tsFn}) {
+		sig := fs.Obj.Type().(*types.Signature)
+		if sig.Params().Len() > 0 && c.P.typeStr(sig.Params().At(0).Type()) == "[]*ncg/revocation/result.CertRevocationResult" {
+			agg = c.P.abbrev(fs.Obj.FullName())
 		}
 	}
 	pg := c.pgOfNI(tsFn, tsVal, agg, ctxFn)
